@@ -6,7 +6,7 @@ From Coq Require Import String List NArith Bool.
 From J5V.lib Require Import Outcome Strcase.
 From J5V.model Require Import J5sAst Desc J5sWalk J5sLink J5sConvert J5sContract J5sValid J5sCorr.
 From J5V.gen Require ImportsGen.
-From J5V.proofs Require Import J5sProofs J5sContractProofs J5sLinkProofs J5sResolveProofs J5sResolveCompleteProofs J5sServiceProofs J5sTotalProofs J5sCompileProofs J5sWitnessProofs.
+From J5V.proofs Require Import J5sProofs J5sContractProofs J5sLinkProofs J5sResolveProofs J5sResolveCompleteProofs J5sServiceProofs J5sTotalProofs J5sCompileProofs J5sSubPkgProofs J5sWitnessProofs.
 Import ListNotations.
 Local Open Scope N_scope.
 
@@ -192,20 +192,34 @@ Proof. exact compile_total. Qed.
 Print Assumptions C02_valid_packages_compile.
 
 (* ---- the package-level statement: every package of a valid bundle compiles (conversion, the
-   linker's symbol table, link step, link of the imported generated files) and satisfies the
-   structural contract of the main generated files (messages, enums, fields with name / JSON
-   name / number / type / cardinality / optionality, nesting to any depth).  [valid] (J5sCorr,
-   J5sValid.valid_bundle with the byte-exact strcase functions) = the documented restrictions
-   plus: no two declarations of a package generate the same proto symbol; every run compares it
-   with acceptance by the real compiler.  The service / topic / reference / type-name clauses
-   are the separate theorems above, stated on the converter functions, not yet part of
-   package_contract. *)
+   linker's symbol table, link step, link of the imported generated files), and its output is,
+   per source file of the package (package_contract_full):
+   - the main file <path>.j5s.proto in the package, holding exactly the declared objects, oneofs
+     and enums: messages, enums, fields with name / JSON name / number / type / cardinality /
+     optionality, enum values, inline types nested under their names, to any depth;
+   - exactly when the source declares services, <dir>/service/<base>.p.j5s.proto in the package
+     <pkg>.service: per service <Name>Service with one rpc per method - input
+     .<pkg>.service.<Method>Request, output .<pkg>.service.<Method>Response or
+     .google.api.HttpBody, the declared HTTP verb, the path (base path joined, :name ->
+     {snake_name}), body "*" except for GET - and the request / response messages with the
+     declared fields;
+   - exactly when it declares topics, <dir>/topic/<base>.p.j5s.proto in <pkg>.topic: per topic
+     the <Topic>Topic service (two for request / reply) with the messaging role and topic name,
+     one rpc <Name>(.<pkg>.topic.<Name>Message) returns (.google.protobuf.Empty) per message,
+     and the messages with the implicit leading field and the declared ones;
+   - and no other file.
+   [valid] (J5sCorr: J5sValid.valid_bundle with the byte-exact strcase functions) = the
+   documented restrictions plus: no two declarations of a package generate the same proto
+   symbol; every run compares it with acceptance by the real compiler.
+   Not part of package_contract_full: which type a message / enum field names (C02_references_*,
+   C02_inline_type_name, C02_map_entry_type_name are statements on the converter functions) and
+   the dependency lists. *)
 Definition C02_full_statement : Prop :=
   forall bd pkg, valid bd = true -> (exists f, In f bd /\ bfile_pkg f = pkg) ->
-    exists D, compile bd pkg = Ok D /\ package_contract to_snake to_camel to_screaming_snake bd pkg D.
+    exists D, compile bd pkg = Ok D /\ package_contract_full to_snake to_camel to_screaming_snake bd pkg D.
 
 Theorem C02_full : C02_full_statement.
-Proof. exact (compile_correct to_snake to_camel to_screaming_snake). Qed.
+Proof. exact (compile_correct_full to_snake to_camel to_screaming_snake). Qed.
 Print Assumptions C02_full.
 
 (* ---- regression examples: the inputs of the repaired defects compile to the declared types *)
